@@ -1,11 +1,12 @@
 //! Conformance harness for property C16 (variable scope, lifetime and
 //! attributes), see /verif/DESIGN.md section 6 and spec/VarRef.tla.
+mod lang;
 mod varset;
 
 fn main() {
     let args: Vec<String> = std::env::args().collect();
     if args.len() < 2 {
-        eprintln!("usage: yv-c16 <replay|random|redo> ...");
+        eprintln!("usage: yv-c16 <replay|random|redo|lang> ...");
         std::process::exit(2);
     }
     let rest = &args[2..];
@@ -13,6 +14,7 @@ fn main() {
         "replay" => varset::replay(rest),
         "random" => varset::random(rest),
         "redo" => varset::redo(rest),
+        "lang" => lang::run(rest),
         other => {
             eprintln!("unknown subcommand {other}");
             2
